@@ -191,7 +191,12 @@ CHECKS["C07"] = dict(
           "finding). A real node is stepped through seeded histories in which the engine's flush job (metadata, "
           "index, data) races with replication; the directory is imaged after every step and at the manifest commit "
           "of the data file; every image is reopened by the real code, replayed, flushed and every entry is read "
-          "back by name. Each observation must equal the model state, all invariants are evaluated on every state."),
+          "back by name. Each observation must equal the model state, all invariants are evaluated on every state. "
+          "The same histories also run on a FOLLOWER-side node whose partition is created and recovered by the real "
+          "WriteAheadLogManager (directory layout database / shard / family / leader, Recovery()), entries arriving "
+          "through Partition.ReplicaLog; and the life cycle of the data family between log and kv store "
+          "(FamilyLifecycle: flush stages, Close, Evict, a writer parked between obtaining the memory database and "
+          "writing while a flush runs) is validated as a leg of this property."),
     note=("Trusted: TLC, Json module, the kv seam wrapper and directory copier (memdb temp buffers are not part of an "
           "image; WAL pages are copied sparsely), the engine setup of the harness. One shard, one family, metric names "
           "only (tags/series covered by C09/C10)."),
